@@ -73,7 +73,17 @@ def origins(q, ops, cons, kenv):
     for kind, a, (sk, b), n in reversed(ops):
         nxt = []
         for cs, x in alts:
-            if kind == 'copy':
+            if kind == 'put':
+                hit = cs + [con(fm.le(a, x), kenv), con(fm.le(x, a), kenv)]
+                if feasible(hit):
+                    done.append((hit, ('val', b)))
+                below = cs + [con(fm.le(x, a - 1), kenv)]
+                if feasible(below):
+                    nxt.append((below, x))
+                above = cs + [con(fm.le(a + 1, x), kenv)]
+                if feasible(above):
+                    nxt.append((above, x))
+            elif kind == 'copy':
                 inside = cs + [con(fm.le(a, x), kenv), con(fm.le(x, a + n - 1), kenv)]
                 if feasible(inside):
                     if sk == 'st':
